@@ -251,9 +251,17 @@ def rad_jobs(tier):
     return out
 
 
-def jobs(tier):
+def _jobs_orig(tier):
     out = dns_jobs(tier) + dnsname_jobs(tier) + rad_jobs(tier)
     for j in out:       # generous cap: shared box
         if tier == "quick" and not j.get("timeout"):
             j["timeout"] = 400
+    return out
+
+
+def jobs(tier):
+    out = _jobs_orig(tier)
+    out.append({"name": "dns-hdr-counters", "src": "dnscnt.c", "defs": {}, "unwind": 14, "solver": SOLVER if "SOLVER" in globals() else "cadical",
+                "shape": "any 12-byte header, any 16-bit increment",
+                "desc": "dns_hdr_{qd,an,ns,ar}_{get,set,inc,dec}: exact 16-bit arithmetic on the big-endian wire fields"})
     return out
